@@ -9,17 +9,18 @@ Definition case := (Z * string * meth * Z * bool * obs)%type.
 
 (* groups of cases, each under its own set of flags that are on; indices are global over the concatenation *)
 Definition bad_spec (gs : list (list string * list case)) : list nat :=
-  mismatches (fun c : case => let '(cls, tmpl, m, l, json, o) := c in spec_ok cls tmpl m l json o)
-             (flat_map snd gs) 0.
+  mismatches (fun oc : list string * case =>
+                let '(on, (cls, tmpl, m, l, json, o)) := oc in spec_ok_on on cls tmpl m l json o)
+             (flat_map (fun g : list string * list case => map (fun c => (fst g, c)) (snd g)) gs) 0.
 
 (* the level the specification requires in each contradicting case (-1: the route is not in the specification or the
-   path is unknown) — printed into the replay file *)
+   path is unknown; -2: the route's feature is off in this configuration) — printed into the replay file *)
 Definition bad_spec_required (gs : list (list string * list case)) : list Z :=
-  let cs := flat_map snd gs in
+  let cs := flat_map (fun g : list string * list case => map (fun c => (fst g, c)) (snd g)) gs in
   map (fun i => match nth_error cs i with
-                | Some (cls, tmpl, m, _, _, _) =>
+                | Some (on, (cls, tmpl, m, _, _, _)) =>
                     match cls, route_of_template tmpl with
-                    | 0, Some r => required_spec r m
+                    | 0, Some r => if route_enabled_spec on r m then required_spec r m else -2
                     | _, _ => -1
                     end
                 | None => -1
